@@ -10,6 +10,7 @@ package xrespondent
 //@   immutable: closeQ
 //@   invariant 1 <= ttl && ttl <= 255
 //@   invariant sendQLen >= 0
+//@   elem_invariant recvQ: !shared(elem)
 //@
 //@ struct pipe
 //@   immutable: p s closeQ sendQ
